@@ -1071,7 +1071,11 @@ def str_method(ex, st, fi, o, name, args, kw, line):
 
 def ilist_method(ex, st, fi, o, name, args, kw, line, node):
     if name == 'append':
-        new = sym.seq_concat(o, lift_ilist([args[0]]))
+        v = args[0].ident if hasattr(args[0], 'ident') else args[0]
+        new = sym.seq_concat(o, lift_ilist([v]))
+        new.tag = getattr(o, 'tag', None)
+        if ex.contracts.ilist_lemma_hook:
+            ex.contracts.ilist_lemma_hook(ex, st, 'append', o, new, v)
         _rebind(ex, st, fi, node, new)
         yield st, None
     elif name == 'copy':
@@ -1080,6 +1084,25 @@ def ilist_method(ex, st, fi, o, name, args, kw, line, node):
         new = sym.seq_concat(o, args[0])
         _rebind(ex, st, fi, node, new)
         yield st, None
+    elif name == 'pop':
+        ex.prove(st, 'safe:pop@%d' % line, zint(o.ln) >= 1, line)
+        if args and args[0] == 0:
+            e = o.at(0)
+            new = sym.seq_slice(o, 1, None)
+        elif not args:
+            e = o.at(zint(o.ln) - 1)
+            new = sym.seq_slice(o, 0, zint(o.ln) - 1)
+        else:
+            raise Unsupported('pop(%r) on int list' % (args[0],))
+        wrap = getattr(o, 'tag', None)
+        if ex.contracts.ilist_lemma_hook:
+            ex.contracts.ilist_lemma_hook(
+                ex, st, 'pop0' if args else 'pop', o, new, e)
+        _rebind(ex, st, fi, node, new)
+        if wrap is not None:
+            new.tag = wrap
+            e = wrap(e)
+        yield st, e
     else:
         raise Unsupported('list-of-int method %s at %d' % (name, line))
 
